@@ -657,7 +657,11 @@ def translate(sigpath, repo):
     if 'region' in sig:
         # only the statements region[0] .. region[1] are translated; all the others are pinned by AST hash
         lo, hi = sig['region']
-        others = stmts[:lo] + stmts[hi + 1:]
+        # statements translated by a sibling target (other_regions) are that target's business
+        skip = set(range(lo, hi + 1))
+        for a2, b2 in sig.get('other_regions', []):
+            skip |= set(range(a2, b2 + 1))
+        others = [st for i, st in enumerate(stmts) if i not in skip]
         if dump_hash(others) != sig['rest_hash']:
             raise Unsupported('the statements of %s outside the translated region changed (AST hash %s, signature file has %s)'
                               % (sig['method'], dump_hash(others), sig['rest_hash']))
@@ -727,7 +731,10 @@ def main(argv):
             stmts = strip_doc(list(ms[sig['method']].body))
             if 'region' in sig:
                 lo, hi = sig['region']
-                print('rest_hash', dump_hash(stmts[:lo] + stmts[hi + 1:]))
+                skip = set(range(lo, hi + 1))
+                for a2, b2 in sig.get('other_regions', []):
+                    skip |= set(range(a2, b2 + 1))
+                print('rest_hash', dump_hash([st for i, st in enumerate(stmts) if i not in skip]))
                 continue
             tr = Tr(sig)
             env = {'self': sig['self_type']}
